@@ -168,3 +168,27 @@ Theorem C03_concrete_sync_durable_and_requested : forall c f all,
     Rabuf.k_events c' = Rabuf.EvSync all :: older /\
     (exists writes, older = writes ++ Rabuf.k_events c).
 Proof. exact sync_durable_and_requested. Qed.
+
+(** ... and composed with the map layer (Io_sync.v): after creation and any history - every read and write issued against ANY
+    cache in front of each of the three files - syncing the three buffers (sync_all or sync_data) leaves exactly [render] of the
+    current state on the disk, [load] reads the ideal contents back, and for each file the OS sync request is the newest event
+    the OS has seen for it. *)
+From Aby Require Import Io_sync.
+Theorem C03_byte_level_sync_durable_over_any_buffer : forall t n bk bv bh ops all,
+  (1 <= n)%N -> pow2 n -> Forall (op_wf t) ops -> sized (Store.create t n) ops ->
+  exists s' (cf : Io.fid -> list call),
+    store_run (Store.create t n) ops = Ok (s', snd (spec_run ∅ ops)) /\
+    forall ck cv ch fuel,
+      backs ck (Io.get_file (Io.empty_st bk bv bh) Io.FKey) ->
+      backs cv (Io.get_file (Io.empty_st bk bv bh) Io.FVal) ->
+      backs ch (Io.get_file (Io.empty_st bk bv bh) Io.FHtx) ->
+      (forall f c, In (f, c) [(Io.FKey, ck); (Io.FVal, cv); (Io.FHtx, ch)] ->
+         (xrun_fuel (Rabuf.k_cs c) (flat_of (Io.get_file (Io.empty_st bk bv bh) f)) (map call_op (cf f)) <= fuel)%nat) ->
+      exists dk dv dh ek ev eh,
+        synced_disk fuel ck (cf Io.FKey) all = Ok (dk, Rabuf.EvSync all :: ek) /\
+        synced_disk fuel cv (cf Io.FVal) all = Ok (dv, Rabuf.EvSync all :: ev) /\
+        synced_disk fuel ch (cf Io.FHtx) all = Ok (dh, Rabuf.EvSync all :: eh) /\
+        render s' = Ok (dh, dk, dv) /\
+        exists s'' l, load t (dh, dk, dv) = Ok s'' /\ contents s'' = Ok l /\
+                      l ≡ₚ map_to_list (fst (spec_run ∅ ops)).
+Proof. exact sync_durable_over_any_buffer. Qed.
